@@ -59,7 +59,7 @@ check("C20",
       "DESIGN.md 5/C20")
 
 check("C10",
-      "Generated operation sequences (value, error, call, is_computed, set_value, set_error, reset_unsafe, subscribe with well-behaved or raising callbacks) on each of 14 future kinds (Future with returning/raising provider, ConstFuture, ErrorFuture, AsyncTask returning/raising/blocking on a batch, an AsyncTask that is suspended mid-body -- with or without clean-up code that fails when its generator is closed -- operated on by a sibling task, batches with succeeding/failing flush, their items, DebugBatchItem) are executed against the real object and an explicit three-state reference model; every return value / exception, the stored outcome after rejected set_* calls, the number of runs of the underlying computation, and the set of subscribers notified per completion (each exactly once, after the outcome is visible, even if another raises) are compared after every step.",
+      "Generated operation sequences (value, error, call, is_computed, set_value, set_error, reset_unsafe, subscribe with well-behaved, raising or one-shot self-unsubscribing callbacks) on each of 14 future kinds (Future with returning/raising provider, ConstFuture, ErrorFuture, AsyncTask returning/raising/blocking on a batch, an AsyncTask that is suspended mid-body -- with or without clean-up code that fails when its generator is closed -- operated on by a sibling task, batches with succeeding/failing flush, their items, DebugBatchItem) are executed against the real object and an explicit three-state reference model; every return value / exception, the stored outcome after rejected set_* calls, the number of runs of the underlying computation, and the set of subscribers notified per completion (each exactly once, after the outcome is visible, even if another raises or removes itself) are compared after every step. A second, scheduler-driven campaign runs generated programs in which one uncomputed Future(provider) object sits in several places of one computation (twice in a yield, in a parent and its child, across a synchronous re-entry): the provider runs once, every consumer sees the one outcome (sequential reference), the subscriber is notified once.",
       "Trusted: the reference model in harness/props/c10.py (soundness notes encoded: error() on a pending raising lazy Future propagates once; sinking hooks of Const/ErrorFuture; natural recomputation after reset_unsafe only for Future).",
       "model-based testing: generated operation histories against an explicit reference state machine (stateful PBT, shrinkable op lists)",
       "DESIGN.md 5/C10")
@@ -70,12 +70,12 @@ check("C11",
       "DESIGN.md 5/C11")
 
 check("C12",
-      "Two generators of call/dirty/completion interleavings against a reference in-flight table: (timed) histories executed inside one computation on a round clock -- caller tasks wait w rounds, then call key k of a deduplicated function / method on instance 1 or 2 / static method with a positional / keyword / explicit-default spelling, or call dirty(k); bodies last r(k) rounds, optionally fail and optionally re-enter themselves once with the same key; the two key values are -1 and -2 (equal hashes); (toplevel) histories of t = f.asynq(k), t.value(), dirty(k) outside any task. Oracle: a call returns the identical task object iff an entry for the normalised key exists, was not dirtied and is not complete; body-run counters per key; every sharer receives the same value/error; different keys, functions and instances never share.",
+      "Two generators of call/dirty/completion interleavings against a reference in-flight table: (timed) histories executed inside one computation on a round clock -- caller tasks wait w rounds, then call key k of a deduplicated function / a second function with the same qualified name (closures of one factory) / method on a truthy or a falsy instance / static method with a positional / keyword / explicit-default spelling, or call dirty(k); bodies last r(k) rounds, optionally fail, optionally first catch a failed dependency and then block, optionally dirty their own key, and optionally re-enter themselves once with the same key; the two key values are -1 and -2 (equal hashes); (toplevel) histories of t = f.asynq(k), t.value(), dirty(k) outside any task. Oracle: a call returns the identical task object iff an entry for the normalised key exists, was not dirtied and is not complete; body-run counters per key; every sharer receives the same value/error; different keys, functions and instances never share.",
       "Trusted: the in-flight table model. When a call and the completion of the in-flight task fall in the same round the model accepts both outcomes (counted as ties).",
       "model-based testing of generated timed histories (deterministic round clock) and top-level operation histories against a reference table",
       "DESIGN.md 5/C12")
 check("C13",
-      "Generated call histories over small key spaces, four signatures (positional, default, keyword-only), every spelling, blocking/raising bodies: alru_cache(maxsize 1-4, default key or custom key_fn) on functions and methods, acached_per_instance on up to 3 instances with instance death, against reference caches keyed by inspect.signature(...).bind(...) with defaults applied (LRU order/capacity, failures not stored, per-instance independence, cache vanishes with the instance); alazy_constant(ttl) histories of call / clock advance / dirty on a harness clock against a ttl cell model (exactly one recomputation per dirty/expiry).",
+      "Generated call histories over small key spaces (argument values include -1 and -2, whose hashes are equal), four signatures (positional, default, keyword-only), every spelling, blocking/raising bodies: alru_cache(maxsize 1-4, default key or custom key_fn) on functions and methods, acached_per_instance on up to 3 instances with instance death, against reference caches keyed by inspect.signature(...).bind(...) with defaults applied (LRU order/capacity, failures not stored, per-instance independence, cache vanishes with the instance); alazy_constant(ttl) histories of call / clock advance / dirty on a harness clock against a ttl cell model (exactly one recomputation per dirty/expiry).",
       "Trusted: inspect.signature binding as the notion of 'normalised arguments'; the harness clock replacing asynq.tools.utime. *args signatures are not generated (qcore.get_args_tuple, a dependency, mishandles them).",
       "model-based testing: generated call histories against reference caches (OrderedDict LRU / per-instance dict / ttl cell)",
       "DESIGN.md 5/C13")
@@ -91,7 +91,7 @@ check("C17",
       "DESIGN.md 5/C17")
 
 check("C09",
-      "The finite matrix decorator {asynq, asynq pure, async_proxy, asynq+sync_fn, async_proxy+sync_fn, make_async_decorator, deduplicate, aretry, alru_cache, acached_per_instance} x binding {function, via instance, via class, via subclass instance, classmethod, staticmethod} x signature {(x), (x, y=10), (x, *, z=20), (x, y=10, *, z=20)} x body {plain, generator with child yield, batch-blocking, raising} is built from generated source and enumerated exhaustively (every cell, two spellings, plus an instance whose __bool__ is False for the instance bindings; another instance of the same class always touches the attribute first), and Hypothesis additionally draws cells with generated argument values and positional/keyword/default spellings. Oracle: the undecorated body applied to the explicitly bound receiver and normalised arguments; sync call, .asynq().value(), yield from a task, async_call (both forms), get_async_fn(f)(...), get_async_or_sync_fn(f)(...) must all equal it (with sync_fn the sync call equals sync_fn's outcome); is_async_fn / is_pure_async_fn / has_async_fn must equal the cell's ground truth.",
+      "The finite matrix decorator {asynq, asynq pure, async_proxy, asynq+sync_fn, async_proxy+sync_fn, make_async_decorator over @asynq(), make_async_decorator over a pure async function, deduplicate, aretry, alru_cache, acached_per_instance} x binding {function, via instance, via class, via subclass instance, classmethod, staticmethod} x signature {(x), (x, y=10), (x, *, z=20), (x, y=10, *, z=20)} x body {plain, generator with child yield, batch-blocking, raising} is built from generated source and enumerated exhaustively (every cell, two spellings, plus an instance whose __bool__ is False for the instance bindings; another instance of the same class always touches the attribute first), and Hypothesis additionally draws cells with generated argument values and positional/keyword/default spellings. Oracle: the undecorated body applied to the explicitly bound receiver and normalised arguments; sync call, .asynq().value(), yield from a task, async_call (both forms), get_async_fn(f)(...), get_async_or_sync_fn(f)(...) must all equal it (with sync_fn the sync call equals sync_fn's outcome); is_async_fn / is_pure_async_fn / has_async_fn must equal the cell's ground truth.",
       "Trusted: the generated source templates and the expected-outcome formula in harness/props/c09.py. Function-style wrappers are exercised on functions and instance methods only.",
       "exhaustive enumeration of a finite calling-convention matrix + property-based testing of argument spellings, differential against direct evaluation of the body",
       "DESIGN.md 5/C09")
@@ -102,17 +102,17 @@ check("C15",
       "DESIGN.md 5/C15")
 
 check("C16",
-      "2-5 (quick) / 2-16 (thorough) generated tie-free programs (harness batch kinds, DebugBatchItem, contexts, failures, synchronous re-entry) plus a deduplicated function called with the same arguments in every thread (even threads hold an in-flight task across sync points and ask for it again, odd threads call dirty() for the same key in between), with COLLECT_PERF_STATS on and no reset of any per-thread state by the workload, run on as many threads: (turnstile) every body statement and flush body is a sync point and Hypothesis draws the sequence of thread turns, so the interleaving is deterministic, replayable and shrinkable; (free-running) switch interval 1e-6 s, barrier start, repeated runs. Oracle per thread: outcome, transcripts, statement sequence, flush compositions, context events, profiler entries (count, counters, names) and deduplicated-body runs equal the same program run alone on a fresh thread; scheduler objects pairwise distinct; the active task is always one of the thread's own; a DebugBatchItem's batch holds only own-thread items.",
+      "2-5 (quick) / 2-16 (thorough) generated tie-free programs (harness batch kinds, DebugBatchItem, contexts, failures, synchronous re-entry, items computed out of band so that stale batches are left for the scheduler) plus a task object created by the starting thread and computed by the worker thread, plus a deduplicated function called with the same arguments in every thread (even threads hold an in-flight task across sync points and ask for it again, odd threads call dirty() for the same key in between), with COLLECT_PERF_STATS on and no reset of any per-thread state by the workload, run on as many threads: (turnstile) every body statement, every flush body and every get_priority call during batch selection is a sync point and Hypothesis draws the sequence of thread turns, so the interleaving is deterministic, replayable and shrinkable; (free-running) switch interval 1e-6 s, barrier start, repeated runs. Oracle per thread: outcome, transcripts, statement sequence, flush compositions, context events, profiler entries (count, counters, names) and deduplicated-body runs equal the same program run alone on a fresh thread; scheduler objects pairwise distinct; the active task is always one of the thread's own; a DebugBatchItem's batch holds only own-thread items.",
       "Trusted: tie-freeness of the programs; the oracle is schedule independent. OS preemption points inside asynq are only sampled (free-running mode).",
       "property-based testing with a harness-owned (generated) thread schedule + free-running stress; metamorphic oracle 'concurrent run = solo run'",
       "DESIGN.md 5/C16")
 check("C18",
-      "(glue) chains of distinct generated functions written to real source files (depth 1-8 quick / -40 thorough; raise at any level, directly or in a helper, before/after blocking; intermediate levels that catch and re-raise or catch and continue; awaited by yield, in a tuple, or called synchronously): the escaping exception's traceback restricted to generated functions must be exactly one frame per task level in call order ending at the raising line, and format_error must render it; (stack) format_asynq_stack() inside every level names that task and every creator, outermost first; (filter) filter_traceback on generated line lists (complete, truncated and sliced boilerplate runs, foreign lines containing pattern substrings) equals an independently written reference rewriter and keeps every other line in order; (totality) an enumerated matrix of 33 object kinds/lifecycle states x 7 renderings (str, repr, debug.str, debug.repr, dump at three indents) and 14 error kinds x highlighting x filtering for format_error/dump_error must never raise.",
+      "(glue) chains of distinct generated functions written to real source files (depth 1-8 quick / -40 thorough; raise at any level, directly or in a helper, before/after blocking; intermediate levels that catch and re-raise or catch and continue; awaited by yield, in a tuple, called synchronously, or created by a helper task that has finished before the level runs): the escaping exception's traceback restricted to generated functions must be exactly one frame per task level in call order ending at the raising line, and format_error must render it; (stack) format_asynq_stack() inside every level names that task and every creator, outermost first; (filter) filter_traceback on generated line lists (complete, truncated and sliced boilerplate runs, foreign lines containing pattern substrings) equals an independently written reference rewriter and keeps every other line in order; (totality) an enumerated matrix of 39 object kinds/lifecycle states (including a task blocked on a chain of 1500 blocked tasks, and the scheduler while running it) x 7 renderings (str, repr, debug.str, debug.repr, dump at three indents) and 14 error kinds x highlighting x filtering for format_error/dump_error must never raise.",
       "Trusted: the reference rewriter and the expected-frame rule. User objects whose own __repr__ raises are not generated.",
       "property-based testing of generated call chains (real source files) + differential against a reference rewriter + exhaustive enumeration of an object-state x rendering matrix",
       "DESIGN.md 5/C18")
 check("C19",
-      "The matrix target {module function, instance method, classmethod, staticmethod, plain attribute} x replacement {default mock, plain function, lambda, bound method, callable object, new_callable mock factory, new_callable callable class, non-callable} x activation {with, function decorator, class decorator, start/stop, stopall} x exit {normal, exception} x {patch by string, patch.object} is enumerated exhaustively; Hypothesis draws nested/sequential patch histories (start, stop, stopall, calls) on one target with generated arguments. Oracle inside: sync call, .asynq().value(), yield from a task and asyncio.run(.asyncio()) each reach the replacement exactly once with exactly the given arguments (preceded by the instance only where Python's descriptor protocol binds it) and return its result; a non-callable is installed as is. After every exit path and after each level of nesting unwinds the owner's __dict__ entry is the previous object / finally the original object, which behaves as before.",
+      "The matrix target {module function, instance method, classmethod, staticmethod, plain attribute} x replacement {default mock, plain function, lambda, bound method, callable object, new_callable mock factory, new_callable callable class, non-callable} x activation {with, function decorator, class decorator, start/stop, stopall} x exit {normal, exception} x {patch by string, patch.object} is enumerated exhaustively (each callable replacement also with a result that is itself a future object, which every convention must hand back as it is); Hypothesis draws nested/sequential patch histories (start, start of an overlapping patch that installs the very same replacement object, stop, stopall, re-activation of a stopped patcher, calls) on one target with generated arguments. Oracle inside: sync call, .asynq().value(), yield from a task and asyncio.run(.asyncio()) each reach the replacement exactly once with exactly the given arguments (preceded by the instance only where Python's descriptor protocol binds it) and return its result; a non-callable is installed as is. After every exit path and after each level of nesting unwinds the owner's __dict__ entry is the previous object / finally the original object, which behaves as before.",
       "Trusted: the expected-arguments rule (descriptor protocol) in harness/props/c19.py. new_callable is exercised as documented by the standard library.",
       "exhaustive enumeration of a finite patching matrix + model-based nesting histories",
       "DESIGN.md 5/C19")
